@@ -20,7 +20,8 @@ CONSTANTS
     Lats,        \* latency samples (scaled integers) observed by calls
     MaxLat,      \* the "unreachable" latency (clientLatency)
     Dev,
-    DevForced    \* TRUE: a deviation in Dev is always taken (the deviated code), FALSE: it may be taken (trace validation)
+    DevForced,   \* TRUE: a deviation in Dev is always taken (the deviated code), FALSE: it may be taken (trace validation)
+    CtxCalls     \* TRUE: callers use CallWithContext and their context may end while the call is with the RoundTripper
 
 Deviations == { "StaleProbeReinserts",  \* a probe of a replaced target object re-inserts its address
                 "ListFromStaleMap",     \* Update leaves the old list in place
@@ -34,6 +35,7 @@ Deviations == { "StaleProbeReinserts",  \* a probe of a replaced target object r
                 "DetectNoWake",         \* detector tick does not wake waiters
                 "RebuildOnlyOnChange",  \* check rebuilds the live list only when the probed target's alive flag changed (a target a failed
                                         \* call already marked dead then stays in the list)
+                "CtxMarksDead",         \* a context that ended is reported to the target like a failed dial
                 "SpuriousRebuild" }     \* check rebuilds the live list (new order, cursor reset) although the live set did not change
 ASSUME Dev \subseteq Deviations
 DevChoice(d) == IF d \in Dev THEN (IF DevForced THEN {TRUE} ELSE BOOLEAN) ELSE {FALSE}
@@ -51,7 +53,7 @@ VARIABLES
     waiters,    \* callers registered in the waiter table      (Client.pending)
     cst,        \* caller state: idle / waiting / woken / routed / done
     croute,     \* croute[k]: address the caller was routed to (NoAddr: none)
-    cerr,       \* cerr[k]: "none" / "shutdown" / "timeout" / "dial"
+    cerr,       \* cerr[k]: "none" / "shutdown" / "timeout" / "dial" / "ctx"
     cvia,       \* cvia[k]: "target" (multi-target path, estimate updated) / "addr" (single target or Director)
     closed, fallback,
     probes,     \* probes in flight: set of <<addr, generation>>
@@ -246,6 +248,24 @@ CallDone(k, sample) ==
     /\ UNCHANGED <<targets, gen, list, lastSet, pos, probeDue, waiters, croute, cvia, closed, fallback, probes, health, director,
                    nupd, nflip, ncall, nfb, ndir, dflip, rrHist, probedSinceTick>>
 
+\* CallWithContext: the caller's context ends while the call is with the RoundTripper. The call returns the context's error at
+\* once; to the target this is an outcome like any other that is not a failed dial (it stays alive, its estimate takes the
+\* sample); no other caller, target or list is touched.
+CtxEnd(k, sample) ==
+    /\ cst[k] = "routed"
+    /\ LET a == croute[k] IN
+       /\ cst' = [cst EXCEPT ![k] = "done"]
+       /\ cerr' = [cerr EXCEPT ![k] = "ctx"]
+       /\ IF cvia[k] = "target" /\ a \in Addrs
+            THEN IF "CtxMarksDead" \in Dev          \* deviation: the context's error is taken for a failed dial
+                   THEN /\ talive' = [talive EXCEPT ![a] = FALSE]
+                        /\ lat' = [lat EXCEPT ![a] = MaxLat]
+                   ELSE /\ talive' = [talive EXCEPT ![a] = TRUE]
+                        /\ lat' = [lat EXCEPT ![a] = IF lat[a] >= MaxLat THEN sample ELSE (lat[a] * 4 + sample) \div 5]
+            ELSE UNCHANGED <<talive, lat>>
+    /\ UNCHANGED <<targets, gen, list, lastSet, pos, probeDue, waiters, croute, cvia, closed, fallback, probes, health, director,
+                   nupd, nflip, ncall, nfb, ndir, dflip, rrHist, probedSinceTick>>
+
 Again(k) ==      \* the caller starts over with a new call
     /\ cst[k] = "done"
     /\ cst' = [cst EXCEPT ![k] = "idle"] /\ cerr' = [cerr EXCEPT ![k] = "none"]
@@ -298,6 +318,7 @@ Next ==
     \/ \E k \in Callers : \E d \in DevChoice("TimeoutLeaks") : Timeout(k, d)
     \/ \E d \in DevChoice("NoWakeOnClose") : Close(d)
     \/ \E k \in Callers : \E s \in Lats : CallDone(k, s)
+    \/ \E k \in Callers : \E s \in Lats : CtxCalls /\ CtxEnd(k, s)
     \/ \E k \in Callers : Again(k)
     \/ FallbackBegin \/ \E a \in Addrs : Flip(a)
     \/ \E a \in Addrs \cup {NoAddr} : SetDirector(a)
@@ -342,7 +363,14 @@ ProbeReleases == [][(probes' # probes /\ dflip' = dflip /\ Cardinality(probes') 
 \* a probe of a current target that finds it down leaves it out of the live list
 ProbeDropsDead ==
     [][\A a \in Addrs : (<<a, gen>> \in probes /\ <<a, gen>> \notin probes' /\ a \in targets /\ ~talive'[a]) => a \notin Range(list')]_vars
-ErrKinds == \A k \in Callers : cst[k] = "done" => cerr[k] \in {"none", "shutdown", "timeout", "dial"}
+ErrKinds == \A k \in Callers : cst[k] = "done" => cerr[k] \in {"none", "shutdown", "timeout", "dial"} \cup (IF CtxCalls THEN {"ctx"} ELSE {})
+\* C19 at this layer: a context that ends takes its own call out and nothing else - no other caller changes state, the lists and
+\* the waiter table stay as they are, and the target the call was with is not taken for unreachable
+CtxHarmless ==
+    [][\A k \in Callers : (cerr'[k] = "ctx" /\ cerr[k] # "ctx") =>
+          /\ list' = list /\ waiters' = waiters /\ targets' = targets /\ pos' = pos
+          /\ \A j \in Callers \ {k} : cst'[j] = cst[j] /\ cerr'[j] = cerr[j]
+          /\ (cvia[k] = "target" /\ croute[k] \in Addrs => talive'[croute[k]])]_vars
 ClosedFailsAtOnce == [][\A k \in Callers : (closed /\ cst[k] = "idle" /\ cst'[k] # "idle") => (cst'[k] = "done" /\ cerr'[k] = "shutdown")]_vars
 \* liveness (fair detector/probes): waiters are released once a target is live and no fallback is in force; Close releases them
 WaitersReleased == (list # <<>> /\ fallback = 0) ~> (waiters = {} \/ list = <<>> \/ fallback > 0)
